@@ -125,7 +125,7 @@ class Gen:
         parents = [d for d in vis_now.values() if d.kind == "type"]
         tname = self.nm("t")
         a, pub = vis_attr()
-        parent = r.choice(parents) if parents and r.random() < 0.6 else None
+        parent = r.choice(parents) if parents and r.random() < 0.75 else None
         # the name a parent type is known by locally
         parent_local = None
         if parent is not None:
@@ -246,9 +246,10 @@ class Gen:
             on, td = obj
             mem = self.type_members_of(td)
             if on in scope and mem:
-                c = r.choice(mem)
-                L.append(f"{pad}{on}%{c.name} = 2")
-                self.sites.append((m.file, len(L) - 1, indent + len(on) + 2, (c.file, c.line), "component"))
+                # the component of the most distant ancestor and a random one
+                for c in dict.fromkeys([mem[0], r.choice(mem)]):
+                    L.append(f"{pad}{on}%{c.name} = 2")
+                    self.sites.append((m.file, len(L) - 1, indent + len(on) + 2, (c.file, c.line), "component"))
         # inaccessible names: private entities of any earlier module that are not visible here
         hidden = []
         for u in self.mods:
@@ -272,11 +273,14 @@ class Gen:
         return files, self.sites
 
 
-def check_program(files, sites):
+def check_program(files, sites, mode=0):
+    """mode 0: files opened in USE order; 1: in reverse order; 2: not opened at all (indexed by initialize only) —
+    the order in which files are linked must not matter"""
     from replay.harness import Workspace, session
     ws = Workspace(files)
     try:
-        msgs = [{"jsonrpc": "2.0", "method": "textDocument/didOpen", "params": {"textDocument": {"uri": ws.uri(n)}}} for n in files]
+        order = list(files) if mode == 0 else (list(reversed(list(files))) if mode == 1 else [])
+        msgs = [{"jsonrpc": "2.0", "method": "textDocument/didOpen", "params": {"textDocument": {"uri": ws.uri(n)}}} for n in order]
         for k, (f, ln, ch, _, _) in enumerate(sites):
             msgs.append({"jsonrpc": "2.0", "id": 100 + k, "method": "textDocument/definition",
                          "params": {"textDocument": {"uri": ws.uri(f)}, "position": {"line": ln, "character": ch}}})
@@ -303,9 +307,10 @@ def run(tier: str, seed: int):
         files, sites = g.generate()
         n += 1
         sites_n += len(sites)
-        w = check_program(files, sites)
+        w = check_program(files, sites, mode=(0, 2, 1, 2)[k % 4])
         if w:
             w["files"] = files
+            w["open_mode"] = ["in USE order", "in reverse order", "not opened"][(0, 2, 1, 2)[k % 4]]
             w["generator_seed"] = seed * 7919 + k
             return w, n, sites_n
     return None, n, sites_n
